@@ -229,7 +229,6 @@ def run_items(chk, part, ds, variant="fast", chunk=8):
         chk.outcome((shape_sig(d), repr(r)[:80]))
         if probs and confirmed[0] < 12:
             # replay before report: the scenario must fail the same way twice more, alone
-            confirmed[0] += 1
             kinds = {k for k, _ in probs}
             for _ in range(2):
                 (st2, text2), = run_batch(variant, DRIVER, [jdn(d)], env={"VERIF_VTIME": "1"}, chunk=1, timeout=120)
@@ -250,6 +249,7 @@ def run_items(chk, part, ds, variant="fast", chunk=8):
             if not kinds:
                 chk.part("not-reproduced", count=1)
                 continue
+            confirmed[0] += 1      # only reproduced problems use up the replay allowance
             probs = [(k, t) for k, t in probs if k in kinds]
         for kind, txt in probs:
             chk.violation("%s:%s%s" % (kind, shape_sig(d), inj), "%s: %s" % (describe(d), txt), replay_for(d))
